@@ -7,6 +7,7 @@ package rpcsim
 import (
 	"context"
 	"fmt"
+	"sort"
 	"strings"
 	"testing"
 	"time"
@@ -61,6 +62,9 @@ type run struct {
 	guard    bool
 	faultsPlanned int
 	settleReq, settleDone bool
+	fault    faultCase
+	closeRets int
+	allDone  bool
 	ops      int
 	desc     []string
 }
@@ -73,6 +77,33 @@ func (rp reporter) ReportError(err error) {
 }
 
 func (r *run) newToken() uint64 { r.nextTok++; return r.nextTok }
+
+// mfail reports a verdict of the protocol monitor (C06/C07/C08 oracles); the
+// fault-sweep runs of C09 use only the termination oracles.
+func (r *run) mfail(oracle, site, detail string) {
+	if r.prop == "C09" {
+		r.s.Probe("monitor_verdict_ignored_in_fault_sweep:" + oracle)
+		return
+	}
+	r.s.Fail(oracle, site, detail)
+}
+
+// faultCase is one point of the per-operation sweep.
+type faultCase struct {
+	kind string // newmsg_err send_err send_stall recv_err recv_eof close close2 cancel
+	at   int    // transport operation index (1-based) or scheduling step
+}
+
+func (f faultCase) String() string { return fmt.Sprintf("%s@%d", f.kind, f.at) }
+
+func parseFault(s string) faultCase {
+	var f faultCase
+	if i := strings.IndexByte(s, '@'); i > 0 {
+		f.kind = s[:i]
+		fmt.Sscanf(s[i+1:], "%d", &f.at)
+	}
+	return f
+}
 
 func (r *run) connOpen() bool {
 	if r.closed || r.connDead {
@@ -420,7 +451,19 @@ func (r *run) idleHook(s *simrt.Sched) bool {
 }
 
 func (Engine) Run(t *testing.T, tape *simrt.Tape, opt worker.Options) *worker.Outcome {
-	r := &run{prop: opt.Property, opt: opt, appCalls: map[uint64]*appCall{}, sentTo: map[string][]uint64{}, locals: map[uint64]*localCall{}}
+	if opt.Property == "C09" {
+		return runSweep(t, tape, opt)
+	}
+	oc, _ := single(t, tape, opt, faultCase{})
+	return oc
+}
+
+// single executes one simulated session.
+func single(t *testing.T, tape *simrt.Tape, opt worker.Options, fc faultCase) (*worker.Outcome, *run) {
+	r := &run{prop: opt.Property, opt: opt, appCalls: map[uint64]*appCall{}, sentTo: map[string][]uint64{}, locals: map[uint64]*localCall{}, fault: fc}
+	if fc.kind != "" {
+		r.faultsPlanned = 1
+	}
 	body := func(s *simrt.Sched) {
 		r.s = s
 		r.mainTask()
@@ -440,7 +483,71 @@ func (Engine) Run(t *testing.T, tape *simrt.Tape, opt worker.Options) *worker.Ou
 			oc.Pattern = "stuck:" + strings.Join(res.StuckSites, "|")
 		}
 	}
-	return oc
+	return oc, r
+}
+
+// runSweep: C09.  Stage 1 runs the scenario of this seed fault-free and counts its transport
+// operations and steps; stage 2 re-runs the recorded scenario once per (operation index x fault
+// kind) and per sampled step for cancellation and Close.
+func runSweep(t *testing.T, tape *simrt.Tape, opt worker.Options) *worker.Outcome {
+	if f := opt.Params["fault"]; f != "" {
+		oc, _ := single(t, tape, opt, parseFault(f)) // replay of one sweep case
+		return oc
+	}
+	base, r0 := single(t, tape, opt, faultCase{})
+	if base.Verdict != nil || r0.tr == nil {
+		return base
+	}
+	recs := append([]simrt.Rec(nil), tape.Records()...)
+	var cases []faultCase
+	for i := 1; i <= r0.tr.nNew; i++ {
+		cases = append(cases, faultCase{"newmsg_err", i})
+	}
+	for i := 1; i <= r0.tr.nSend; i++ {
+		cases = append(cases, faultCase{"send_err", i}, faultCase{"send_stall", i})
+	}
+	for i := 1; i <= r0.tr.nRecv; i++ {
+		cases = append(cases, faultCase{"recv_err", i}, faultCase{"recv_eof", i})
+	}
+	steps := base.Res.Steps
+	stride := 1
+	if steps > 60 {
+		stride = steps / 60
+	}
+	for j := 1; j <= steps; j += stride {
+		cases = append(cases, faultCase{"close", j}, faultCase{"close2", j}, faultCase{"cancel", j})
+	}
+	agg := &worker.Outcome{Res: base.Res, Probes: map[string]int{}, Faults: map[string]int{}, NonTrivial: true, Key: base.Key}
+	for k, v := range base.Probes {
+		agg.Probes[k] += v
+	}
+	fired := 0
+	for _, fc := range cases {
+		oc, _ := single(t, simrt.ReplayTape(recs), opt, fc)
+		agg.Ops++
+		for k, v := range oc.Faults {
+			agg.Faults[k] += v
+			if k == fc.kind || (k == "close" && fc.kind == "close2") {
+				fired++
+			}
+		}
+		for k, v := range oc.Probes {
+			agg.Probes[k] += v
+		}
+		if oc.Verdict != nil {
+			oc.ReplayTape = recs
+			oc.ReplayParams = map[string]string{"fault": fc.String()}
+			oc.Pattern = oc.Pattern + " fault=" + fc.kind
+			oc.Sample = map[string]interface{}{"scenario": r0.desc, "fault": fc.String()}
+			return oc
+		}
+		agg.Key = agg.Key*1099511628211 ^ oc.Key
+	}
+	agg.Probes["sweep_cases"] += len(cases)
+	agg.Probes["sweep_cases_fault_fired"] += fired
+	agg.Probes["sweep_scenarios"]++
+	agg.Sample = map[string]interface{}{"scenario": r0.desc, "transport_ops": map[string]int{"new": r0.tr.nNew, "send": r0.tr.nSend, "recv": r0.tr.nRecv}, "steps": steps, "sweep_cases": len(cases), "cases_in_which_the_fault_fired": fired}
+	return agg
 }
 
 func (r *run) mainTask() {
@@ -451,6 +558,18 @@ func (r *run) mainTask() {
 	}
 	gone := false
 	r.tr = &SimTransport{name: "conn", s: s, inbox: &r.toConn, outbox: &r.toPeer, peerGone: &gone, onRecv: r.peer.delivered}
+	switch r.fault.kind {
+	case "newmsg_err":
+		r.tr.plan.newMsgErrAt = r.fault.at
+	case "send_err":
+		r.tr.plan.sendErrAt = r.fault.at
+	case "send_stall":
+		r.tr.plan.sendStallAt = r.fault.at
+	case "recv_err":
+		r.tr.plan.recvErrAt = r.fault.at
+	case "recv_eof":
+		r.tr.plan.recvEOFAt = r.fault.at
+	}
 	boot := r.newAppCap()
 	for i := s.Choice("extra-apps", 3); i > 0; i-- {
 		r.newAppCap()
@@ -474,6 +593,43 @@ func (r *run) mainTask() {
 			}
 		}
 	})
+	switch r.fault.kind {
+	case "close", "close2":
+		s.Spawn("closer", func() {
+			s.Block("close-at", func() bool { return s.Steps() >= r.fault.at || r.allDone })
+			if r.closed || r.allDone {
+				return
+			}
+			r.closed = true
+			s.Fault("close")
+			s.Logf("closer: Close at step %d", s.Steps())
+			_ = r.conn.Close()
+			r.closeRets++
+			if r.fault.kind == "close2" {
+				s.Fault("close_again")
+				_ = r.conn.Close()
+				r.closeRets++
+				// and an operation issued after Close must come back with an error, not hang
+				c := r.conn.Bootstrap(context.Background())
+				ans, rel := c.SendCall(context.Background(), capnp.Send{Method: capnp.Method{InterfaceID: ifaceID}})
+				_, _ = ans.Struct()
+				rel()
+				c.Release()
+			}
+			r.peerDone = true
+		})
+	case "cancel":
+		s.Spawn("canceller", func() {
+			s.Block("cancel-at", func() bool { return s.Steps() >= r.fault.at || r.allDone })
+			for tk := uint64(1); tk <= r.nextTok; tk++ {
+				if lc := r.locals[tk]; lc != nil && lc.cancel != nil && !lc.done {
+					lc.cancelled = true
+					lc.cancel()
+					s.Fault("cancel")
+				}
+			}
+		})
+	}
 	s.Spawn("peer", r.peerTask)
 	for i := 0; i < r.ncallers; i++ {
 		i := i
@@ -502,7 +658,7 @@ func (r *run) settleAndClose() {
 	s := r.s
 	p := r.peer
 	orderly := s.Choice("orderly", 3) != 0
-	if orderly && !p.aborted {
+	if orderly && !p.aborted && !r.closed && r.connOpen() {
 		// the peer (in its own task) finishes its questions and releases everything it holds
 		r.settleReq = true
 		s.Block("settled", func() bool { return r.settleDone })
@@ -512,27 +668,36 @@ func (r *run) settleAndClose() {
 		if !r.connOpen() {
 			if !r.hostile && r.faultsPlanned == 0 {
 				s.Fail("conn_died", "rpc.go:(*Conn).receive", fmt.Sprintf("the connection shut itself down during a spec-conforming session: %v", r.reports))
-			}
-			return
-		}
-		for _, id := range p.order {
-			if q := p.myQ[id]; q.returns != 1 {
-				s.Fail("return_missing", "answer.go:(*answer).Return", fmt.Sprintf("question %d (%s, token %d, target %s) received %d Returns although the connection is alive and every implementation has returned", q.id, q.kind, q.token, q.target, q.returns))
 				return
+			}
+		} else if r.faultsPlanned == 0 {
+			for _, id := range p.order {
+				if q := p.myQ[id]; q.returns != 1 {
+					s.Fail("return_missing", "answer.go:(*answer).Return", fmt.Sprintf("question %d (%s, token %d, target %s) received %d Returns although the connection is alive and every implementation has returned", q.id, q.kind, q.token, q.target, q.returns))
+					return
+				}
 			}
 		}
 		// C07: with every question finished and every export released by the peer, the only holders left are
 		// the harness' own references: drop them; every non-bootstrap application capability must now be released.
-		r.checkQuiescentTables()
+		if r.faultsPlanned == 0 && r.connOpen() {
+			r.checkQuiescentTables()
+		}
 	}
 	if s.Failed() {
 		return
 	}
-	r.closed = true
-	s.Logf("main: Close")
-	err := r.conn.Close()
+	r.allDone = true
+	if !r.closed {
+		r.closed = true
+		s.Logf("main: Close")
+		err := r.conn.Close()
+		r.closeRets++
+		s.Logf("main: Close returned %v", err)
+	} else {
+		s.Block("closer-done", func() bool { return r.closeRets > 0 })
+	}
 	r.closeRet = true
-	s.Logf("main: Close returned %v", err)
 	r.peerDone = true
 	r.afterClose()
 }
@@ -593,8 +758,9 @@ func (r *run) checkQuiescentTables() {
 		s.Fail("import_leak", "import.go:(*importClient).Shutdown", fmt.Sprintf("all local references to imports were released but the import table still has %d entries", v.Imports))
 		return
 	}
-	for _, e := range r.peer.mine {
-		if e.refs != 0 {
+	for id := uint32(0); id < r.peer.nextExp; id++ {
+		e := r.peer.mine[id]
+		if e != nil && e.refs != 0 {
 			s.Fail("release_count_mismatch", "import.go:(*importClient).Shutdown", fmt.Sprintf("all local references were released but the Conn still holds %d reference(s) on the peer's export %d (no Release sent)", e.refs, e.id))
 			return
 		}
@@ -628,13 +794,13 @@ func (r *run) afterClose() {
 		return
 	}
 	for _, a := range r.apps {
-		if a.shutdown != 1 {
+		if a.shutdown != 1 && r.prop != "C09" && r.prop != "C08" {
 			s.Fail("shutdown_count", "rpc.go:(*Conn).shutdown", fmt.Sprintf("after Close and after the application dropped its own references, application capability %d has been released %d times (want exactly 1)", a.id, a.shutdown))
 			return
 		}
 	}
-	for _, lc := range r.locals {
-		if lc.ans != nil && !lc.done {
+	for tk := uint64(1); tk <= r.nextTok; tk++ {
+		if lc := r.locals[tk]; lc != nil && lc.ans != nil && !lc.done {
 			s.Fail("local_call_unresolved", "question.go:(*question).handleCancel", fmt.Sprintf("local call %d never resolved", lc.token))
 			return
 		}
@@ -647,12 +813,25 @@ func (r *run) afterClose() {
 		s.Fail("lock_leak", "rpc.go:(*Conn).Close", fmt.Sprintf("after Close returned a lock is still held: %v", held))
 		return
 	}
+	if v := r.conn.SimView(); v.SenderLocked {
+		s.Fail("lock_leak", "rpc.go:(*Conn).Close", "after Close returned the sender lock is still held")
+		return
+	}
+	if r.prop != "C06" {
+		return
+	}
 	// ordering over the whole run: per target designator, the application saw the calls in send order
 	pos := map[uint64]int{}
 	for i, ac := range r.started {
 		pos[ac.token] = i
 	}
-	for tgt, toks := range r.sentTo {
+	var tgts []string
+	for tgt := range r.sentTo {
+		tgts = append(tgts, tgt)
+	}
+	sort.Strings(tgts)
+	for _, tgt := range tgts {
+		toks := r.sentTo[tgt]
 		last := -1
 		var lastTok uint64
 		for _, tk := range toks {
